@@ -29,3 +29,28 @@ claim("C04",
            "(the statement restricts them to the xy-plane with +z normal).",
       technique="TLA+ model checking (TLC) of an exact-arithmetic polygon state machine + spec-to-code replay",
       design_ref="DESIGN.md 5 C04")
+
+
+claim("C01",
+      text="TLC enumerates all full-dimensional 4..k-point subsets of lattice universes in strictly convex position "
+           "(spec/Convex3.tla, exhaustive for a 12-point universe, random growth on 30/48-point shells), computes facets "
+           "by supporting planes and exact volume, centroid, second moments, facet areas and facet centroids "
+           "(spec/Geom3.tla), proves in the spec that the coded curl-theorem centroid and 4-point quadrature "
+           "(spec/AlgConvex.tla) equal them, and every emitted state is replayed into ConvexPolyhedron under rational "
+           "placements and vertex permutations at 1e-9 relative.",
+      note="Trusted: TLC, vh/placement.py laws, tolerance table. Not decided: generic float point clouds; tabulated "
+           "solids (irrational coordinates) only through C09/C18 relations.",
+      technique="TLA+ model checking (TLC) of an exact lattice-polytope state machine + spec-to-code replay",
+      design_ref="DESIGN.md 5 C01")
+
+claim("C07",
+      text="Facets, counter-clockwise outward cycles, primitive outward normals, ridge adjacency and edge sets are defined in "
+           "spec/Geom3.tla and model-checked (Euler, each edge in two facets) on every state of spec/Convex3.tla; (T2) the "
+           "emitted structure is compared with ConvexPolyhedron's faces/equations/neighbors/edges/simplices; (T3) discrete "
+           "projections recorded from ConvexPolyhedron and from Polyhedron.sort_faces/merge_faces on scrambled, reversed and "
+           "triangulated inputs (with and without a prior read of the memoised edge list) are validated by TLC against "
+           "spec/TraceStructure.tla, which also must reject four corrupted canary traces on every run.",
+      note="Trusted: TLC, the recorder in vh/structure_trace.py (logs integers only). Implementation latitude (face order, "
+           "cycle start, choice of triangulation) is nondeterminism in the trace spec.",
+      technique="TLA+ trace validation (recorded executions checked by TLC against a trace specification) + spec-to-code replay",
+      design_ref="DESIGN.md 5 C07")
